@@ -195,6 +195,15 @@ impl SuiteDef for Lines {
         if impl_reply == "panic" {
             return Some("handle_file_change_line panicked".into());
         }
+        if c.exporter_form.is_none() {
+            // C10: a change line that cannot be parsed (Lean: parseFileChangeLine = none) must be forwarded byte for byte,
+            // whatever the path options are, so that the importer sees the corruption
+            if model.ask(&format!("parseable {}", enc(&c.line))) == "0" && impl_reply != enc(&c.line) {
+                return Some(format!("an unparseable change line was {} instead of being forwarded verbatim: the importer no longer sees the corruption",
+                    if impl_reply == "none" { "dropped".to_string() } else { format!("rewritten to {}", impl_reply) }));
+            }
+            return None;
+        }
         let shape = c.exporter_form?;
         if !c.known_paths.iter().all(|p| no_ctrl(p)) {
             return None;
